@@ -9,7 +9,7 @@ use crate::engine::{self, Built};
 use crate::gen::{self, RandCfg};
 use fancy_regex::{Expr, Regex};
 
-pub const VARIANTS: [&str; 13] = [
+pub const VARIANTS: [&str; 14] = [
     "x-mode, one space between tokens, spaced braces",
     "x-mode, mixed whitespace and # comments",
     "(?#..) comments between tokens",
@@ -23,6 +23,7 @@ pub const VARIANTS: [&str; 13] = [
     "hash-chosen mixture",
     "top-level scoped flag group (?on:X) as (?on)X(?-on)",
     "(?-m:^) (?-m:$) as \\A \\z (under every flag setting)",
+    "atomic group around a quantified atom as possessive suffix (X*?+ for a lazy one)",
 ];
 
 pub struct Respell {
@@ -67,6 +68,7 @@ pub fn respell(n: &Node, variant: usize) -> String {
         8 => n.to_pattern_with(&PrintOpts { flags_inline: true, ..Default::default() }),
         9 => join(&n.tokens(&PrintOpts { lit_style: 2, anchors_az: az, ..Default::default() }), |i| if i % 3 == 0 { "(?#q)" } else { "" }),
         12 => n.to_pattern_with(&PrintOpts { anchors_az: true, ..Default::default() }),
+        13 => n.to_pattern_with(&PrintOpts { atomic_as_poss: true, ..Default::default() }),
         11 => {
             // only meaningful when nothing else sets flags around the toggled groups
             let nested = n.any(|x| matches!(x, Flags(_, _, c) if c.any(|y| matches!(y, Flags(..) | SetFlags(..) | AnyNl | Assert(A::StartLine) | Assert(A::EndLine))))) || n.any(|x| matches!(x, SetFlags(..)));
@@ -246,6 +248,8 @@ fn flag_bases() -> Vec<Node> {
     let mut out = vec![];
     let mut cfg = gen::common_cfg();
     cfg.leaves = vec![Lit('a'), Lit('B'), Lit('é'), Any, Class(false, vec![('a', 'b')]), Assert(A::StartText), Assert(A::EndText), Lit('\n'), AnyNl, Assert(A::StartLine), Assert(A::EndLine)];
+    cfg.leaves.extend([Lit('.'), Lit('*'), Lit('(')]);
+    cfg.unary.push(|c| if matches!(c, Repeat(_, _, _, Q::Greedy | Q::Lazy)) { Some(Atomic(Box::new(c))) } else { None });
     cfg.unary.push(|c| if c.repeatable() { Some(Repeat(Box::new(c), 0, None, Q::Poss)) } else { None });
     cfg.unary.push(|c| if c.repeatable() { Some(Repeat(Box::new(c), 1, Some(2), Q::Poss)) } else { None });
     for b in space(&cfg, 3, false) {
@@ -280,6 +284,7 @@ pub fn run(ctx: &RunCtx) -> Outcome {
     let texts = gen::text_set(&gen::SIGMA5, 2, 4);
     let mut ftexts = gen::texts(&['a', 'A', 'B', 'é', 'É', '\n'], 3);
     ftexts.extend(gen::texts(&['a', 'F', 'g', '7', '\u{1b}'], 2));
+    ftexts.extend(gen::texts(&['a', 'B', '.', '*', '('], 2));
     // round trip first
     {
         let rt = RoundTrip;
